@@ -592,7 +592,14 @@ Step_C24_Payout(pre, post, t) ==
     /\ \A a \in (DOMAIN post.bal \cup DOMAIN pre.bal) \ {NODEPOOL} : BalOf(post, a) = BalOf(pre, a) + DueTo(pre, t, a)
     /\ BalOf(post, NODEPOOL) = BalOf(pre, NODEPOOL) - DueTotal(pre, t)
 \* outside EndBlock no record disappears and no unstaking node is paid
-Step_C24_NoEarly(pre, post) == \A n \in DOMAIN pre.val : HasVal(post, n)
+\* ... and a node that has begun unstaking stays so, with the completion time it was given and
+\* never more tokens, until its record disappears at the payout (no message re-stakes it)
+Step_C24_NoEarly(pre, post) ==
+    \A n \in DOMAIN pre.val :
+       /\ HasVal(post, n)
+       /\ Unstaking(pre.val[n]) => /\ Unstaking(post.val[n])
+                                   /\ post.val[n].unstakeAt = pre.val[n].unstakeAt
+                                   /\ post.val[n].tokens <= pre.val[n].tokens
 
 \* C25: slashing (BeginBlock or challenge burn): tokens removed = pool decrease = supply
 \* decrease, never more than the stake; below the minimum => jailed and waiting
